@@ -26,6 +26,9 @@ type c14Case struct {
 	// with its own remote hold time: the OPEN of the connection under test must
 	// read as if they had never happened
 	Prev []world.PrevSession `json:"prev,omitempty"`
+	// Shared: the plugin hands out one and the same slice (with spare capacity)
+	// from every GetCapabilities call; the encoder sub-check encodes it twice
+	Shared bool `json:"shared,omitempty"`
 }
 
 // c14Expect computes the capability list the OPEN must carry and whether it
@@ -112,7 +115,14 @@ func c14Verdict(c c14Case) (hx.Verdict, []wire.Cap, bool) {
 // c14EncoderProp drives the OPEN encoder through the export shim (no FSM).
 func c14EncoderProp(c c14Case) hx.Verdict {
 	v, want, rep := c14Verdict(c)
-	enc, err := corebgp.VerifNewOpen(c.LocalAS, time.Duration(c.Hold)*time.Second, ipToU32(c.RouterID), capsToCore(c.Caps))
+	caps := capsToCore(c.Caps)
+	if c.Shared {
+		// the caller keeps its slice (which has spare capacity) and encodes it again:
+		// the second OPEN must read like the first
+		caps = append(make([]corebgp.Capability, 0, len(caps)+3), caps...)
+		corebgp.VerifNewOpen(c.LocalAS, time.Duration(c.Hold)*time.Second, ipToU32(c.RouterID), caps) // nolint: errcheck
+	}
+	enc, err := corebgp.VerifNewOpen(c.LocalAS, time.Duration(c.Hold)*time.Second, ipToU32(c.RouterID), caps)
 	if err != nil {
 		if rep {
 			v.Dev = hx.Devf("open-encode-refused", "encoder refused a representable capability list: %v", err)
@@ -144,7 +154,7 @@ func c14WireProp(t *testing.T, r *hx.Run) func(c c14Case) hx.Verdict {
 		r.SetCurrent("open_on_wire", c)
 		v, want, rep := c14Verdict(c)
 		p := world.PeerSpec{Remote: "10.0.0.2", LocalAS: c.LocalAS, RemoteAS: 64513, Passive: !c.Out, Hold: c.Hold,
-			Plugin: world.PluginSpec{Caps: c.Caps, NoNonce: true}}
+			Plugin: world.PluginSpec{Caps: c.Caps, NoNonce: true, SharedCaps: c.Shared}}
 		var dev *hx.Dev
 		prev := c.Prev
 		if !rep {
@@ -232,9 +242,10 @@ func genC14(rt *rapid.T) c14Case {
 	}
 	if rapid.IntRange(0, 2).Draw(rt, "withprev") == 0 {
 		for i, n := 0, rapid.IntRange(1, 2).Draw(rt, "nprev"); i < n; i++ {
-			c.Prev = append(c.Prev, world.PrevSession{Hold: pick[uint16](rt, "prevhold", 0, 3, 30, 180), End: pick(rt, "prevend", "fin", "cease")})
+			c.Prev = append(c.Prev, world.PrevSession{Hold: pick[uint16](rt, "prevhold", 0, 3, 30, 180), End: pick(rt, "prevend", "fin", "cease", "cease+junk")})
 		}
 	}
+	c.Shared = rapid.IntRange(0, 2).Draw(rt, "shared") == 0
 	return c
 }
 
